@@ -99,8 +99,8 @@ class Stats:
         for l in labels:
             self.hist[l] += 1
 
-    def fail(self, case, message):
-        self.failures.append({"case": case, "message": message})
+    def fail(self, case, message, terminal=False):
+        self.failures.append({"case": case, "message": message, "terminal": bool(terminal)})
 
     def merge(self, other: "Stats"):
         self.evaluations += other.evaluations
@@ -237,7 +237,7 @@ def sweep(stats: Stats, cases, oracle, stop_after=1):
         try:
             guarded(oracle, case, stats)
         except Violation as v:
-            stats.fail(v.case, v.message)
+            stats.fail(v.case, v.message, v.terminal)
             nfail += 1
             if nfail >= stop_after:
                 break
@@ -290,7 +290,7 @@ def hyp(stats: Stats, strategy, oracle, max_examples, seed_value, shrink=True, l
         test()
     except Violation as v:
         v = box.get("v", v)
-        stats.fail(v.case, v.message)
+        stats.fail(v.case, v.message, v.terminal)
     except HarnessError as h:
         stats.harness_errors.append(str(box.get("h", h)))
     except hypothesis.errors.Flaky as e:
@@ -365,6 +365,10 @@ class Ctx:
 
     def units(self, name, func, arglist, procs=None):
         if getattr(self, "only", None) and name not in self.only:
+            return None
+        if any(f.get("terminal") for st_ in self.subs.values() for f in st_.failures):
+            # a hang / blow-up was already found: every further sub-check would only pay the watchdog period again
+            print("  %-28s skipped: a hang was already found by an earlier sub-check" % name)
             return None
         t = time.time()
         st = run_units(func, arglist, procs)
